@@ -388,8 +388,16 @@ fn run_inner(case: &WCase, out: &mut WOutcome, prop: &str)
     let pool: Vec<Entity> = (0..n).map(|_| world.spawn_empty().id()).collect();
     ST.with(|s| { let mut s = s.borrow_mut(); *s = St::default(); s.pool = pool.clone(); });
     with_case(|c| { *c = Case::default(); for (i, e) in pool.iter().enumerate() { c.ent_index.insert(*e, EntRef::Pool(i as u8)); } });
-    // removals of CA are tracked from the start (a silent type-wide removal reactor)
-    world.react(|rc| { rc.on_persistent(removal::<CA>(), || {}); });
+    // removals of CA are tracked from the start (a silent type-wide removal reactor). In the histories with three or four
+    // pool entities that reactor is revoked again at once: tracking, once started, does not depend on a type-wide removal
+    // reactor being left - the entity-scoped removal triggers of the entity world reactors rely on it too.
+    if case.n_entities >= 3
+    {
+        let token = world.react(|rc| rc.on_revokable(removal::<CA>(), || {}));
+        world.react(|rc| rc.revoke(token));
+        garbage_collect_entities(world);
+    }
+    else { world.react(|rc| { rc.on_persistent(removal::<CA>(), || {}); }); }
     let mut m = Model{
         alive: vec![true; n], has_ca: vec![false; n], wd: [Vec::new(), Vec::new()], w3_start: true, w3_bcast: false,
         er: [vec![(Vec::new(), 0); n], vec![(Vec::new(), 0); n], vec![(Vec::new(), 0); n], vec![(Vec::new(), 0); n]],
